@@ -50,7 +50,7 @@ func (r Round) has(path string) bool {
 func (r Round) sig() string {
 	ps := append([]string(nil), r.Paths...)
 	sort.Strings(ps)
-	return fmt.Sprintf("%s|n=%d|%s|v=%d|m=%d", r.Comp, r.Closers, strings.Join(ps, "+"), r.P["variant"], r.P["udp"]+2*r.P["pathFirst"]+8*r.P["bw"]+16*r.P["lateAttach"]+32*r.P["startRace"]+64*r.P["cluster"])
+	return fmt.Sprintf("%s|n=%d|%s|v=%d|m=%d", r.Comp, r.Closers, strings.Join(ps, "+"), r.P["variant"], r.P["udp"]+2*r.P["pathFirst"]+8*r.P["bw"]+16*r.P["lateAttach"]+32*r.P["startRace"]+64*r.P["cluster"]+128*r.P["slowTarget"])
 }
 
 type fail struct {
